@@ -31,7 +31,8 @@ def run():
     # assumptions about the environment
     try:
         import cwcwidth
-        widths = {0x61: 1, 0x20: 1, 0xFF25: 2, 0x65E5: 2, 0x1F600: 2, 0x0301: 0, 0x200B: 0, 0x0E31: 0, 0x200D: 0, 0x1160: 0}
+        widths = {0x61: 1, 0x20: 1, 0xFF25: 2, 0x65E5: 2, 0x1F600: 2, 0x0301: 0, 0x200B: 0, 0x0E31: 0, 0x200D: 0, 0x1160: 0,
+                  0x3000: 2, 0x302E: 2, 0x1BAA: 1, 0xA0: 1, 0xAD: 1, 0xE0B0: 1, 0x2003: 1}
         for cp, w in widths.items():
             if cwcwidth.wcwidth(chr(cp)) != w:
                 print(f"setup: width assumption broken for U+{cp:04X}")
